@@ -9,3 +9,20 @@ pub assume_specification[ u8::checked_shl ](x: u8, rhs: u32) -> (r: Option<u8>)
     ensures
         r == (if rhs < 8 { Some(x << (rhs as u8)) } else { None::<u8> }),
 ;
+
+/// S-02  usize::leading_zeros (64-bit usize): for n > 0 the result r satisfies 2^(63-r) <= n < 2^(64-r); 64 for n == 0.
+pub uninterp spec fn lz_usize(n: usize) -> u32;
+
+pub assume_specification[ usize::leading_zeros ](n: usize) -> (r: u32)
+    ensures
+        r == lz_usize(n),
+;
+
+#[verifier::external_body]
+pub proof fn axiom_lz_usize(n: usize)
+    ensures
+        lz_usize(n) <= 64,
+        n == 0 <==> lz_usize(n) == 64,
+        n > 0 ==> vstd::arithmetic::power2::pow2((63 - lz_usize(n)) as nat) <= n < vstd::arithmetic::power2::pow2((64 - lz_usize(n)) as nat),
+{
+}
